@@ -35,6 +35,9 @@ type recProvider struct {
 	keep  map[string]bool
 	once  map[string]int
 	calls []string
+	// queued models the provide queue of the real provider: StartProviding and ProvideOnce put a key in, StopProviding takes
+	// it out again (if it has not been sent yet - here nothing is ever sent, which is the schedule least favourable to the key)
+	queued map[string]bool
 }
 
 func (r *recProvider) StartProviding(force bool, keys ...mh.Multihash) error {
@@ -42,6 +45,7 @@ func (r *recProvider) StartProviding(force bool, keys ...mh.Multihash) error {
 	defer r.mu.Unlock()
 	for _, k := range keys {
 		r.keep[string(k)] = true
+		r.queued[string(k)] = true
 	}
 	r.calls = append(r.calls, fmt.Sprintf("start(%v,%d)", force, len(keys)))
 	return nil
@@ -52,6 +56,7 @@ func (r *recProvider) StopProviding(keys ...mh.Multihash) error {
 	defer r.mu.Unlock()
 	for _, k := range keys {
 		delete(r.keep, string(k))
+		delete(r.queued, string(k))
 	}
 	r.calls = append(r.calls, fmt.Sprintf("stop(%d)", len(keys)))
 	return nil
@@ -62,7 +67,9 @@ func (r *recProvider) ProvideOnce(keys ...mh.Multihash) error {
 	defer r.mu.Unlock()
 	for _, k := range keys {
 		r.once[string(k)]++
+		r.queued[string(k)] = true
 	}
+	r.calls = append(r.calls, fmt.Sprintf("once(%d)", len(keys)))
 	return nil
 }
 
@@ -91,9 +98,10 @@ func TestVerif_C17_Buffered(t *testing.T) {
 		Run: func(t *testing.T, sc bufSc) (res verifsim.Result) {
 			model := map[int]bool{}
 			onceWant := map[int]int{}
+			wantQueued := map[int]bool{}
 			flips := map[int]int{}
 			last := map[int]string{}
-			inner := &recProvider{keep: map[string]bool{}, once: map[string]int{}}
+			inner := &recProvider{keep: map[string]bool{}, once: map[string]int{}, queued: map[string]bool{}}
 			out := verifsim.Bubble(t, func() {
 				d := dssync.MutexWrap(ds.NewMapDatastore())
 				b := New(inner, d, WithBatchSize(sc.Batch))
@@ -107,6 +115,7 @@ func TestVerif_C17_Buffered(t *testing.T) {
 						b.StartProviding(op.Op == "force", keys...)
 						for _, k := range op.Keys {
 							model[k] = true
+							wantQueued[k] = true
 							if last[k] == "stop" {
 								flips[k]++
 							}
@@ -116,6 +125,7 @@ func TestVerif_C17_Buffered(t *testing.T) {
 						b.StopProviding(keys...)
 						for _, k := range op.Keys {
 							delete(model, k)
+							delete(wantQueued, k)
 							if last[k] == "start" {
 								flips[k]++
 							}
@@ -125,6 +135,7 @@ func TestVerif_C17_Buffered(t *testing.T) {
 						b.ProvideOnce(keys...)
 						for _, k := range op.Keys {
 							onceWant[k]++
+							wantQueued[k] = true
 						}
 					case "pause":
 						time.Sleep(time.Duration(op.Pause) * time.Millisecond)
@@ -150,6 +161,14 @@ func TestVerif_C17_Buffered(t *testing.T) {
 			sort.Ints(want)
 			if fmt.Sprint(want) != fmt.Sprint(got) {
 				res.Fail("same-final-effect", "C17/buffered/keep-set", "final keep-set %v, sequential application gives %v (batch %d, inner calls %v)", got, want, sc.Batch, inner.calls)
+			}
+			// a key whose last request was a provide (start or provide-once, no stop after it) is still due to be advertised:
+			// applied one by one nothing takes it off the provide queue again
+			for k := range wantQueued {
+				if !inner.queued[kp.IDs[k]] {
+					res.Fail("same-final-effect", "C17/buffered/provide-request-undone", "key %d: its last request was a provide (no stop after it), but through the wrapper a StopProviding reached the inner provider after it and took the key off the provide queue (batch %d, inner calls %v)", k, sc.Batch, inner.calls)
+					break
+				}
 			}
 			for k, n := range onceWant {
 				if inner.once[kp.IDs[k]] != n {
